@@ -40,6 +40,11 @@ import (
 //	N10 a comparison between two operands that are identifiers, selectors of
 //	    identifiers or literals is written with `<`/`<=` (never `>`/`>=`) and,
 //	    for `==`/`!=`, with the operands in text order;
+//	N13 `if !c { return A }; return B` at the end of a block is
+//	    `if c { return B }; return A`;
+//	N14 labels are named by their order of appearance;
+//	N15 `for c { body; x++ }` is `for ; c; x++ { body }` when the body has no
+//	    continue (the last statement of the body becomes the post statement);
 //	N12 `!(a < b)` is `a >= b` (and so on) when one operand is an integer
 //	    literal or a len/cap call, i.e. the comparison is between integers;
 //	N11 `if c { continue }` (or a bare `return` in a function without results)
@@ -77,7 +82,37 @@ func canonFunc(fd *ast.FuncDecl) *ast.FuncDecl {
 	pushNot(fd.Body)
 	orientCompares(fd.Body)
 	alphaLocals(fd)
+	renameLabels(fd)
 	return fd
+}
+
+// renameLabels: N14.
+func renameLabels(fd *ast.FuncDecl) {
+	names := map[string]string{}
+	ast.Inspect(fd.Body, func(n ast.Node) bool {
+		if ls, ok := n.(*ast.LabeledStmt); ok {
+			if _, had := names[ls.Label.Name]; !had {
+				names[ls.Label.Name] = fmt.Sprintf("label%d", len(names))
+			}
+		}
+		return true
+	})
+	if len(names) == 0 {
+		return
+	}
+	ast.Inspect(fd.Body, func(n ast.Node) bool {
+		switch x := n.(type) {
+		case *ast.LabeledStmt:
+			x.Label.Name = names[x.Label.Name]
+		case *ast.BranchStmt:
+			if x.Label != nil {
+				if nn, ok := names[x.Label.Name]; ok {
+					x.Label.Name = nn
+				}
+			}
+		}
+		return true
+	})
 }
 
 // stripParens removes every ParenExpr; go/printer parenthesises by precedence.
@@ -180,7 +215,67 @@ func canonList(list []ast.Stmt) []ast.Stmt {
 	for _, s := range list {
 		out = append(out, canonStmt(s)...)
 	}
-	return mergeLiteralWrites(out)
+	out = mergeLiteralWrites(out)
+	// N13: the positive form of `if c { return A }; return B`
+	if n := len(out); n >= 2 {
+		ifs, ok1 := out[n-2].(*ast.IfStmt)
+		last, ok2 := out[n-1].(*ast.ReturnStmt)
+		if ok1 && ok2 && ifs.Else == nil && ifs.Init == nil && len(ifs.Body.List) == 1 {
+			if inner, ok := ifs.Body.List[0].(*ast.ReturnStmt); ok {
+				swap := false
+				switch c := ifs.Cond.(type) {
+				case *ast.UnaryExpr:
+					if c.Op == token.NOT {
+						ifs.Cond = c.X
+						swap = true
+					}
+				case *ast.BinaryExpr:
+					if c.Op == token.NEQ {
+						c.Op = token.EQL
+						swap = true
+					}
+				}
+				if swap {
+					ifs.Body.List[0] = last
+					out[n-1] = inner
+				}
+			}
+		}
+	}
+	return out
+}
+
+// loopPost: N15.
+func loopPost(x *ast.ForStmt) {
+	if x.Post != nil || x.Init != nil || x.Cond == nil || len(x.Body.List) < 2 {
+		return
+	}
+	last := x.Body.List[len(x.Body.List)-1]
+	switch l := last.(type) {
+	case *ast.IncDecStmt:
+		if _, ok := l.X.(*ast.Ident); !ok {
+			return
+		}
+	default:
+		return
+	}
+	hasContinue := false
+	ast.Inspect(x.Body, func(n ast.Node) bool {
+		switch b := n.(type) {
+		case *ast.BranchStmt:
+			if b.Tok == token.CONTINUE {
+				hasContinue = true
+			}
+		case *ast.FuncLit:
+			return false
+		}
+		return true
+	})
+	if hasContinue {
+		return
+	}
+	x.Post = last
+	x.Body.List = x.Body.List[:len(x.Body.List)-1]
 }
 
 func canonStmt(s ast.Stmt) []ast.Stmt {
@@ -257,6 +352,7 @@ func canonStmt(s ast.Stmt) []ast.Stmt {
 	case *ast.ForStmt:
 		x.Body.List = unguard(x.Body.List, token.CONTINUE)
 		canonBlock(x.Body)
+		loopPost(x)
 	case *ast.RangeStmt:
 		x.Body.List = unguard(x.Body.List, token.CONTINUE)
 		canonBlock(x.Body)
